@@ -266,3 +266,9 @@ def main(argv):
     except subprocess.TimeoutExpired as e:
         print("TOOL-ERROR: timeout", e, file=sys.stderr)
         return 2
+    except Exception:
+        # a defect of the machinery itself is never a verdict about the code
+        import traceback
+        traceback.print_exc()
+        print("TOOL-ERROR: internal error of the check", file=sys.stderr)
+        return 2
